@@ -33,3 +33,4 @@ func vfNote(s string)
 func vfBytes(name string, n int) string
 func vfChoiceStr(name string, opts ...string) string
 func vfAllocCap(n int, id string)
+func vfMapOrder(on bool)
